@@ -103,6 +103,10 @@ func LoadBackendEnsureUser(env *Env) func(*cobra.Command, []string) error {
 
 		_, err = identity.GetUserIdentity(env.Repo)
 		if err != nil {
+			// The backend is loaded and the repository locked, but the command (and its
+			// CloseBackend wrapper) is not going to run: release the lock here.
+			_ = env.Backend.Close()
+			env.Backend = nil
 			return err
 		}
 
